@@ -100,6 +100,19 @@ CLAIMED.update({
              "two extremes; sufficiency for cyclic/gated graphs is acceptance + resolvability, not 'every intended node runs'.",
         technique="Coq proof (filter characterisation of compute_input_spec / validate_inputs) + differential correspondence per omission",
     ),
+    "C11": dict(
+        category="proof",
+        text="Theorems for every executor/graph/runner: the error of a failing superstep is the error raised by the first failing ready "
+             "node (nothing wraps it), the run loop passes it on unchanged (or reports InfiniteLoopError), a nested run's failure surfaces "
+             "from the wrapper as the same error at every depth; the partial state of a failing synchronous step is exactly the nodes "
+             "listed before the failing one applied to the snapshot (async: every successful sibling), and no earlier value is lost. "
+             "Tied to /repo by making each node of generated programs (flat, gated, cyclic, nested to depth 3) raise a fresh exception "
+             "object and checking identity (`is`), FAILED values against the failure-free run, and the model's partial state.",
+        design_ref="DESIGN.md section 5 C11",
+        note="Exception identity itself is Python runtime behaviour (checked, not modelled: err ids); map-level propagation is covered by "
+             "C10; interrupt handlers are wrapped in RuntimeError by the implementation (known finding candidate, C14).",
+        technique="Coq proof (characterisation of failing supersteps and of the nested executor) + fault enumeration over nodes",
+    ),
     "C16": dict(
         category="proof",
         text="Theorems: with entry points only active nodes are ever scheduled (every state); a returned key is a declared output (or a "
